@@ -96,6 +96,12 @@ inline const char* check32(uint32_t x, uint64_t& got, uint64_t& want) {
   if (s1 != want) { got = s1; return "sign_extend:wrong-value"; }
   if (s2 != want) { got = s2; return "sign_extend:wrong-value"; }
   if (s3 != want) { got = s3; return "sign_extend:wrong-value"; }
+  uint64_t s4 = sign_extend<uint64_t, int32_t>(static_cast<int32_t>(x));
+  if (s4 != want) { got = s4; return "sign_extend:wrong-value"; }
+  uint64_t s5 = static_cast<uint64_t>(sign_extend<long long, int32_t>(static_cast<int32_t>(x)));
+  uint64_t s6 = sign_extend<unsigned long long, uint32_t>(x);
+  if (s5 != want) { got = s5; return "sign_extend:wrong-value"; }
+  if (s6 != want) { got = s6; return "sign_extend:wrong-value"; }
   return nullptr;
 }
 
@@ -112,8 +118,23 @@ VF_SECTION(bswap_small, 4, 4, 120) {
   SE(int16_t, int8_t, all8) SE(uint16_t, int8_t, all8) SE(int32_t, int8_t, all8) SE(uint32_t, int8_t, all8) SE(int64_t, int8_t, all8) SE(uint64_t, int8_t, all8)
   SE(int32_t, uint16_t, all16) SE(uint32_t, uint16_t, all16) SE(int64_t, uint16_t, all16) SE(uint64_t, uint16_t, all16)
   SE(int32_t, int16_t, all16) SE(uint32_t, int16_t, all16) SE(int64_t, int16_t, all16) SE(uint64_t, int16_t, all16)
+  // other integer types of the same widths (distinct types: char, char16_t, wchar_t-free set, long long)
+  SE(long long, int8_t, all8) SE(unsigned long long, uint8_t, all8) SE(long long, int16_t, all16) SE(unsigned long long, uint16_t, all16)
+  SE(int, char, all8) SE(long long, char, all8) SE(int32_t, char16_t, all16) SE(int64_t, char16_t, all16) SE(char32_t, uint16_t, all16) SE(char32_t, int8_t, all8) SE(char16_t, int8_t, all8)
 #undef SE
-  r.bound = "bswap8: all 256; bswap16 + bswap<u16/s16>: all 65536; sign_extend<R,S>: all values of S in {int8,uint8,int16,uint16} x every strictly wider R in {16,32,64-bit signed/unsigned}";
+  // same-width instantiations are outside the statement ("narrower value ... wider result"): executed, not compared
+  {
+    uint64_t n = 0;
+    for (uint32_t v = 0; v < 0x10000; v++) {
+      if (!r.take()) continue;
+      volatile uint64_t sink = 0;
+      if (v < 0x100) sink = sink + static_cast<uint8_t>(sign_extend<int8_t, int8_t>(static_cast<int8_t>(v))) + sign_extend<uint8_t, uint8_t>(static_cast<uint8_t>(v)) + static_cast<uint8_t>(sign_extend<int8_t, uint8_t>(static_cast<uint8_t>(v)));
+      sink = sink + static_cast<uint16_t>(sign_extend<int16_t, int16_t>(static_cast<int16_t>(v))) + sign_extend<uint16_t, uint16_t>(static_cast<uint16_t>(v)) + sign_extend<uint16_t, int16_t>(static_cast<int16_t>(v));
+      n++;
+    }
+    r.hist["sign_extend<same width>:executed (not compared)"] += n;
+  }
+  r.bound = "bswap8: all 256; bswap16 + bswap<u16/s16>: all 65536; sign_extend<R,S>: all values of S in {int8,uint8,int16,uint16} x every strictly wider R in {16,32,64-bit signed/unsigned} plus R/S among long long, unsigned long long, char, char16_t, char32_t; same-width 8/16-bit instantiations executed only";
 }
 
 VF_SECTION(bswap24, 16, 16, 120) {
@@ -163,7 +184,7 @@ VF_SECTION(bswap24, 16, 16, 120) {
 VF_SECTION(bswap32, 4, 4, 120) {
   uint64_t okc = 0;
   r.note("bswap32");
-  auto vals = lane_set(L9, 9, 4);
+  auto vals = with_pow2(lane_set(L9, 9, 4), 32);
   for (uint64_t v : vals) {
     if (!r.take()) continue;
     uint32_t x = static_cast<uint32_t>(v);
@@ -175,7 +196,7 @@ VF_SECTION(bswap32, 4, 4, 120) {
     else okc++;
   }
   r.hist["32-bit helpers:all-laws-hold"] += okc;
-  r.bound = "bswap32, bswap32f(uint32), bswap32f(float), generic bswap<> forms, sign_extend<int64/uint64, uint32/int32>: L9^4 lane values + 64 walking-bit + 2 all-distinct";
+  r.bound = "bswap32, bswap32f(uint32), bswap32f(float), generic bswap<> forms, sign_extend<int64/uint64, uint32/int32>: L9^4 lane values + 64 walking-bit + 2 all-distinct + every 2^k-1, 2^k, 2^k+1 and negative";
 }
 
 VF_SECTION(bswap32all, 0, 16, 300) {
@@ -201,7 +222,7 @@ VF_SECTION(bswap32all, 0, 16, 300) {
 VF_SECTION(bswap48_64, 8, 8, 120) {
   uint64_t ok48 = 0, ok48s = 0, oke = 0, ok64 = 0, okg = 0;
   r.note("bswap48");
-  auto v48 = lane_set(L5, 5, 6);
+  auto v48 = with_pow2(lane_set(L5, 5, 6), 48);
   for (uint64_t v : v48) {
     if (!r.take()) continue;
     if (r.wants_desc()) r.desc(vf::fmt("bswap48 / bswap48s / ext48 on 0x%012llX", (unsigned long long)v));
@@ -235,7 +256,7 @@ VF_SECTION(bswap48_64, 8, 8, 120) {
     }
   }
   r.note("bswap64");
-  auto v64 = lane_set(L5, 5, 8);
+  auto v64 = with_pow2(lane_set(L5, 5, 8), 64);
   for (uint64_t v : v64) {
     if (!r.take()) continue;
     uint64_t want = rev_lanes(v, 8);
@@ -259,6 +280,120 @@ VF_SECTION(bswap48_64, 8, 8, 120) {
   r.hist["ext48:top-bit-replicated"] += oke;
   r.hist["bswap48/48s:bits-above-47-ignored"] += okg;
   r.hist["64-bit helpers:all-laws-hold"] += ok64;
-  r.bound = "bswap48, bswap48s, ext48: L5^6 = 15625 lane values + 96 walking-bit + 2 all-distinct (+ 4 garbage patterns above bit 47 for bswap48/48s); bswap64, bswap64f (both directions), generic bswap<> forms: L5^8 = 390625 + 128 walking-bit + 2 all-distinct";
+  r.bound = "bswap48, bswap48s, ext48: L5^6 = 15625 lane values + 96 walking-bit + 2 all-distinct + every 2^k-1, 2^k, 2^k+1 and negative (+ 4 garbage patterns above bit 47 for bswap48/48s); bswap64, bswap64f (both directions), generic bswap<> forms: L5^8 = 390625 + 128 walking-bit + 2 all-distinct + every 2^k-1, 2^k, 2^k+1 and negative";
 }
 
+
+// ---------------------------------------------------------------------------------------------
+// Call histories of the pure helpers: every helper must return the same value for the same argument
+// whatever was called before.  For every ordered pair of helpers (f, g) and every ordered pair of
+// boundary arguments (a, b): f(a), g(b), f(a) - all three compared with the reference (covers f == g:
+// larger-then-smaller, smaller-then-larger, A-B-A; and g != f: a call to another helper in between).
+namespace {
+
+struct Helper {
+  const char* name;      // call-site name for keys
+  const char* key;       // key stem (function family)
+  uint64_t (*call)(uint64_t);
+  uint64_t (*ref)(uint64_t);
+  int in_bits;           // arguments are taken from the boundary set of this width
+  bool clean_only;       // argument must be below 2^in_bits (ext24 / ext48)
+};
+
+#define H_CALL(EXPR) [](uint64_t a) -> uint64_t { return static_cast<uint64_t>(EXPR); }
+template <int N> uint64_t ref_rev(uint64_t a) { return rev_lanes(a, N); }
+template <int N, int OUT> uint64_t ref_rev_s(uint64_t a) {
+  uint64_t v = static_cast<uint64_t>(sext(rev_lanes(a, N), N * 8));
+  return OUT == 64 ? v : (v & ((1ull << (OUT % 64)) - 1));
+}
+template <int N, int OUT> uint64_t ref_sext(uint64_t a) {
+  uint64_t v = static_cast<uint64_t>(sext(a, N));
+  return OUT == 64 ? v : (v & ((1ull << (OUT % 64)) - 1));
+}
+
+const Helper helpers[] = {
+    {"bswap8", "bswap8", H_CALL(bswap8(static_cast<uint8_t>(a))), ref_rev<1>, 8, false},
+    {"bswap16", "bswap16", H_CALL(bswap16(static_cast<uint16_t>(a))), ref_rev<2>, 16, false},
+    {"bswap<uint16_t>", "bswap<16-bit>", H_CALL(bswap<uint16_t>(static_cast<uint16_t>(a))), ref_rev<2>, 16, false},
+    {"bswap<int16_t>", "bswap<16-bit>", H_CALL(static_cast<uint16_t>(bswap<int16_t>(static_cast<int16_t>(a)))), ref_rev<2>, 16, false},
+    {"bswap24", "bswap24", H_CALL(bswap24(static_cast<uint32_t>(a))), ref_rev<3>, 32, false},
+    {"bswap24s", "bswap24s", H_CALL(static_cast<uint32_t>(bswap24s(static_cast<int32_t>(a)))), ref_rev_s<3, 32>, 32, false},
+    {"ext24", "ext24", H_CALL(static_cast<uint32_t>(ext24(static_cast<uint32_t>(a)))), ref_sext<24, 32>, 24, true},
+    {"bswap32", "bswap32", H_CALL(bswap32(static_cast<uint32_t>(a))), ref_rev<4>, 32, false},
+    {"bswap<uint32_t>", "bswap<32-bit>", H_CALL(bswap<uint32_t>(static_cast<uint32_t>(a))), ref_rev<4>, 32, false},
+    {"bswap<int32_t>", "bswap<32-bit>", H_CALL(static_cast<uint32_t>(bswap<int32_t>(static_cast<int32_t>(a)))), ref_rev<4>, 32, false},
+    {"bswap32f(uint32_t)", "bswap32f(uint32)", H_CALL(bits_of(bswap32f(static_cast<uint32_t>(a)))), ref_rev<4>, 32, false},
+    {"bswap32f(float)", "bswap32f(float)", H_CALL(bswap32f(from_bits<float>(a))), ref_rev<4>, 32, false},
+    {"bswap<float,uint32_t>", "bswap<float,uint32>", H_CALL((bswap<float, uint32_t>(from_bits<float>(a)))), ref_rev<4>, 32, false},
+    {"bswap<uint32_t,float>", "bswap<uint32,float>", H_CALL(bits_of(bswap<uint32_t, float>(static_cast<uint32_t>(a)))), ref_rev<4>, 32, false},
+    {"bswap48", "bswap48", H_CALL(bswap48(a)), ref_rev<6>, 64, false},
+    {"bswap48s", "bswap48s", H_CALL(bswap48s(static_cast<int64_t>(a))), ref_rev_s<6, 64>, 64, false},
+    {"ext48", "ext48", H_CALL(ext48(a)), ref_sext<48, 64>, 48, true},
+    {"bswap64", "bswap64", H_CALL(bswap64(a)), ref_rev<8>, 64, false},
+    {"bswap<uint64_t>", "bswap<64-bit>", H_CALL(bswap<uint64_t>(a)), ref_rev<8>, 64, false},
+    {"bswap<int64_t>", "bswap<64-bit>", H_CALL(bswap<int64_t>(static_cast<int64_t>(a))), ref_rev<8>, 64, false},
+    {"bswap64f(uint64_t)", "bswap64f(uint64)", H_CALL(bits_of(bswap64f(a))), ref_rev<8>, 64, false},
+    {"bswap64f(double)", "bswap64f(double)", H_CALL(bswap64f(from_bits<double>(a))), ref_rev<8>, 64, false},
+    {"bswap<double,uint64_t>", "bswap<double,uint64>", H_CALL((bswap<double, uint64_t>(from_bits<double>(a)))), ref_rev<8>, 64, false},
+    {"bswap<uint64_t,double>", "bswap<uint64,double>", H_CALL(bits_of(bswap<uint64_t, double>(a))), ref_rev<8>, 64, false},
+    {"sign_extend<int16_t,int8_t>", "sign_extend", H_CALL(static_cast<uint16_t>(sign_extend<int16_t, int8_t>(static_cast<int8_t>(a)))), ref_sext<8, 16>, 8, false},
+    {"sign_extend<uint32_t,uint8_t>", "sign_extend", H_CALL((sign_extend<uint32_t, uint8_t>(static_cast<uint8_t>(a)))), ref_sext<8, 32>, 8, false},
+    {"sign_extend<int64_t,int8_t>", "sign_extend", H_CALL((sign_extend<int64_t, int8_t>(static_cast<int8_t>(a)))), ref_sext<8, 64>, 8, false},
+    {"sign_extend<int32_t,int16_t>", "sign_extend", H_CALL(static_cast<uint32_t>(sign_extend<int32_t, int16_t>(static_cast<int16_t>(a)))), ref_sext<16, 32>, 16, false},
+    {"sign_extend<uint64_t,uint16_t>", "sign_extend", H_CALL((sign_extend<uint64_t, uint16_t>(static_cast<uint16_t>(a)))), ref_sext<16, 64>, 16, false},
+    {"sign_extend<int64_t,int32_t>", "sign_extend", H_CALL((sign_extend<int64_t, int32_t>(static_cast<int32_t>(a)))), ref_sext<32, 64>, 32, false},
+    {"sign_extend<uint64_t,uint32_t>", "sign_extend", H_CALL((sign_extend<uint64_t, uint32_t>(static_cast<uint32_t>(a)))), ref_sext<32, 64>, 32, false},
+};
+constexpr size_t NHELPERS = sizeof(helpers) / sizeof(helpers[0]);
+
+// boundary arguments of a width: values that differ only in their high half, only in their low half, byte
+// palindromes, byte-reversed twins, sign boundaries of every sub-width
+std::vector<uint64_t> helper_args(int bits, bool clean_only) {
+  const uint64_t mask = bits == 64 ? ~0ull : ((1ull << bits) - 1);
+  std::vector<uint64_t> b = {0, 1, 0x80, 0xFF, 0x100, 0x7FFF, 0x8000, 0x800000, 0x7FFFFF, 0xFFFFFF, 0x1000000, 0x80000000ull, 0x7FFFFFFFull, 0xFFFFFFFFull, 0x100000000ull, 0x100000001ull, 0x200000001ull,
+      0x0000000100000000ull, 0x800000000000ull, 0x7FFFFFFFFFFFull, 0xFFFFFFFFFFFFull, 0x1000000000000ull, 0xFFFF800000000000ull, 0x8000000000000000ull, 0x7FFFFFFFFFFFFFFFull, 0xFFFFFFFFFFFFFFFFull,
+      0x0102030405060708ull, 0x0807060504030201ull, 0x0102030404030201ull, 0xA5A5A5A5A5A5A5A5ull, 0xFF00FF00FF00FF00ull, 0x0000000000FF0001ull, 0x00000000FF000001ull};
+  std::vector<uint64_t> v;
+  for (uint64_t x : b) {
+    if (clean_only || bits < 32 || bits == 48) x &= mask;
+    else if (bits == 32) x &= 0xFFFFFFFFull;
+    bool seen = false;
+    for (uint64_t y : v) seen = seen || y == x;
+    if (!seen) v.push_back(x);
+  }
+  return v;
+}
+
+}  // namespace
+
+VF_SECTION(bswap_hist, 8, 8, 120) {
+  std::vector<std::vector<uint64_t>> args;
+  for (size_t i = 0; i < NHELPERS; i++) args.push_back(helper_args(helpers[i].in_bits, helpers[i].clean_only));
+  uint64_t okc = 0;
+  for (size_t fi = 0; fi < NHELPERS; fi++) {
+    const Helper& f = helpers[fi];
+    r.note(std::string("history ") + f.name);
+    for (size_t gi = 0; gi < NHELPERS; gi++) {
+      const Helper& g = helpers[gi];
+      for (uint64_t a : args[fi])
+        for (uint64_t b : args[gi]) {
+          if (!r.take()) continue;
+          if (r.wants_desc()) r.desc(vf::fmt("%s(0x%llX); %s(0x%llX); %s(0x%llX)", f.name, (unsigned long long)a, g.name, (unsigned long long)b, f.name, (unsigned long long)a));
+          r.poison_errno();
+          uint64_t r1 = f.call(a), r2 = g.call(b), r3 = f.call(a);
+          uint64_t w1 = f.ref(a), w2 = g.ref(b);
+          r.nontriv();
+          if (r1 != w1 || r2 != w2 || r3 != w1) {
+            const Helper& bad = (r1 != w1 || r3 != w1) ? f : g;
+            r.fail(std::string(bad.key) + ":wrong-value-in-call-sequence", [&] {
+              return vf::fmt("calls in this order: %s(0x%llX) = 0x%llX (expected 0x%llX); %s(0x%llX) = 0x%llX (expected 0x%llX); %s(0x%llX) = 0x%llX (expected 0x%llX)", f.name, (unsigned long long)a,
+                  (unsigned long long)r1, (unsigned long long)w1, g.name, (unsigned long long)b, (unsigned long long)r2, (unsigned long long)w2, f.name, (unsigned long long)a, (unsigned long long)r3,
+                  (unsigned long long)w1);
+            });
+          } else okc++;
+        }
+    }
+  }
+  r.hist["helper call histories f(a); g(b); f(a):all three equal the reference"] += okc;
+  r.bound = "31 helper entry points (bswap8/16/24/24s/32/48/48s/64, bswap32f/bswap64f both directions, every generic bswap<> form, ext24, ext48, 7 sign_extend instantiations) x every ordered pair of helpers (f, g) x every ordered pair of up to 33 boundary arguments (a, b): f(a), g(b), f(a) each compared with the byte-lane / arithmetic reference";
+}
